@@ -638,7 +638,58 @@ def r12_8(ctx):
     ctx.floor(n, 1, "resets of the finish bookkeeping in Progress.update")
 
 
-RULES = [r12_1, r12_2, r12_3, r12_4, r12_5, r12_6, r12_7, r12_8]
+def r12_9(ctx):
+    ctx.rule("R12.9", "every request is applied as asked (the accounting statements exist and use the caller's value): Progress.advance adds its `advance` argument to task.completed on every path; Progress.update adds `advance` under `advance is not None`, stores `completed` / `total` / `description` / `visible` under their own `is not None` test; Progress.reset stores its `completed` argument unconditionally - and no other store to task.completed exists in these methods. A dropped or mis-guarded statement is invisible to a test that only calls advance(): update(advance=5) would change nothing")
+    cls = ctx.repo.cls("progress:Progress")
+    n = 0
+
+    def task_store(st, field):
+        """('=', value) / ('+=', value) if st stores <task>.<field>, else None"""
+        if isinstance(st, ast.Assign) and len(st.targets) == 1 and isinstance(st.targets[0], ast.Attribute) and st.targets[0].attr == field and isinstance(st.targets[0].value, ast.Name):
+            return "=", st.value
+        if isinstance(st, ast.AugAssign) and isinstance(st.target, ast.Attribute) and st.target.attr == field and isinstance(st.target.value, ast.Name):
+            return ("+=" if isinstance(st.op, ast.Add) else "op="), st.value
+        return None
+    for mname, wants in (("advance", [("completed", "+=", "advance", None)]),
+                         ("update", [("completed", "+=", "advance", "advance"), ("completed", "=", "completed", "completed"), ("total", "=", "total", "total"),
+                                     ("description", "=", "description", "description"), ("visible", "=", "visible", "visible")]),
+                         ("reset", [("completed", "=", "completed", None)])):
+        f = cls.method(mname)
+        if f is None:
+            raise AnchorVanished(f"progress:Progress.{mname} not found")
+        from .common import inline_helpers_in_function
+        g = cfgmod.build(f.node)
+        dom = g.dominators()
+        stmts = [nd for nd in g.stmt_nodes() if nd.kind == "stmt" and nd.stmt is not None]
+        for field, op, param, guard in wants:
+            if param not in f.params:
+                raise AnalysisError(f"Progress.{mname} has no parameter `{param}`; the accounting clause is written differently")
+            cands = [nd for nd in stmts if (ts := task_store(nd.stmt, field)) is not None and ts[0] == op and norm(ts[1]) == param]
+            n += 1
+            where = f.where
+            if not cands:
+                ctx.violation(f.fq, f"task.{field} {op} {param}", where, f"Progress.{mname} has no statement `task.{field} {op} {param}`: {mname}({param}=..) does not {'add the amount to' if op == '+=' else 'store the value in'} task.{field}")
+                continue
+            nd = cands[0]
+            where = f"{f.module.relpath}:{nd.lineno}"
+            if guard is None:
+                ok = nd.id in dom.get(g.exit, set())
+                ctx.check(ok, f.fq, short(nd.stmt), where, f"`{short(nd.stmt)}` runs on every normal path of {mname}()", f"`{short(nd.stmt)}` is skipped on some path of Progress.{mname}: the call returns without having applied `{param}`")
+            else:
+                facts = {(norm(t), v) for t, v in g.branch_facts(nd.id)}
+                own = (f"{guard} is not None", True) in facts or (f"{guard} is None", False) in facts
+                foreign = [t for t, v in facts if "is not None" in t and not t.startswith(guard + " ") and v is True]
+                ctx.check(own and not foreign, f.fq, short(nd.stmt), where, f"`{short(nd.stmt)}` under `{guard} is not None` and nothing else",
+                          f"`{short(nd.stmt)}` is not guarded by exactly `{guard} is not None`" + (f" (it also requires {foreign})" if foreign else "") + f": update({guard}=..) is ignored when the other argument is absent")
+        # no other store to task.completed
+        if mname in ("advance", "update"):
+            extra = [nd for nd in stmts if (ts := task_store(nd.stmt, "completed")) is not None and norm(ts[1]) not in ("advance", "completed")]
+            for nd in extra:
+                ctx.violation(f.fq, short(nd.stmt), f"{f.module.relpath}:{nd.lineno}", f"`{short(nd.stmt)}` writes task.completed with something other than the caller's amount")
+    ctx.floor(n, 7, "accounting statements in advance / update / reset")
+
+
+RULES = [r12_1, r12_2, r12_3, r12_4, r12_5, r12_6, r12_7, r12_8, r12_9]
 
 
 def _xcheck(ctx):
